@@ -33,6 +33,10 @@ def int_label(v, xs):
         return 'min'
     if hi is not None and v == hi:
         return 'max'
+    edges = {2 ** 63 - 1: 'i64-max', 2 ** 63: 'huge-i64-max+1', -2 ** 63: 'huge-i64-min', -2 ** 63 - 1: 'huge-i64-min-1', 2 ** 64 - 1: 'huge-u64-max',
+             2 ** 64: 'huge-u64-max+1', 2 ** 53: 'f53', 2 ** 53 + 1: 'f53+1', 2 ** 31 - 1: 'i32-max', 2 ** 31: 'i32-max+1', -2 ** 31 - 1: 'i32-min-1'}
+    if v in edges:      # every width boundary of the binary wire formats is its own class
+        return edges[v]
     if abs(v) >= 2 ** 63:
         return 'huge-pos' if v > 0 else 'huge-neg'
     return 'pos' if v > 0 else 'neg'
@@ -141,9 +145,31 @@ def durations():
             ('days-hms', td(days=2, hours=3, minutes=4, seconds=5)),
             ('days-hms-frac', td(days=2, hours=3, minutes=4, seconds=5, microseconds=60)),
             ('big', td(days=10 ** 6)), ('big', td(days=999999999)),
+            # beyond float precision: total_seconds() cannot tell x.999999 s from x+1 s any more
+            ('big-frac', td(days=100000, microseconds=999999)), ('big-frac', td(days=300000, seconds=86399, microseconds=999999)),
+            ('big-frac', td(days=10 ** 6, microseconds=1)), ('big-frac', td(days=999999999, microseconds=999999)),
+            ('extreme', td.max), ('extreme', td.min), ('negative-big-frac', -td(days=300000, microseconds=999999)),
             ('negative', -td(seconds=1)), ('negative', -td(days=1) + td(seconds=5)), ('negative', -td(days=1)),
             ('negative-frac', -td(microseconds=5)), ('negative-frac', -td(days=3, seconds=7, microseconds=250000))]
     return vals
+
+
+def byte_chunkings(max_chunks=3, max_len=5, max_total=9):
+    """EVERY way of handing a byte string over as 2..max_chunks chunks with chunk lengths 0..max_len (total <= max_total):
+    the native form of a ByteArray is a sequence of chunks and encoders work group-wise across chunk borders"""
+    import itertools
+    data = bytes(range(7, 7 + max_total))
+    out = []
+    for k in range(2, max_chunks + 1):
+        for lens in itertools.product(range(max_len + 1), repeat=k):
+            if sum(lens) > max_total or sum(lens) == 0:
+                continue
+            chunks, pos = [], 0
+            for n in lens:
+                chunks.append(data[pos:pos + n])
+                pos += n
+            out.append(('chunks-' + '+'.join(str(n) for n in lens), Chunks(chunks)))
+    return out
 
 
 def byte_strings():
@@ -152,7 +178,8 @@ def byte_strings():
            ('len58', bytes(range(58))), ('len100', bytes(range(100))),
            # the native form is a *sequence of chunks*: chunk boundaries off the 3-byte base64 groups, empty chunks
            ('chunks-1+2', Chunks([b'a', b'bc'])), ('chunks-2+2+1', Chunks([b'ab', b'cd', b'e'])),
-           ('chunks-0+3+0', Chunks([b'', b'abc', b''])), ('chunks-tuple-4+1', Chunks([b'\xff\x00\x01\x02', b'z'], True))]
+           ('chunks-0+3+0', Chunks([b'', b'abc', b''])), ('chunks-tuple-4+1', Chunks([b'\xff\x00\x01\x02', b'z'], True)),
+           ('chunks-4+1+5', Chunks([b'abcd', b'e', b'fghij'])), ('chunks-1+0+5', Chunks([b'a', b'', b'bcdef']))]
     return out
 
 
